@@ -25,6 +25,7 @@ import (
 	"github.com/rpcpool/yellowstone-faithful/blocktimeindex"
 	"github.com/rpcpool/yellowstone-faithful/bucketteer"
 	"github.com/rpcpool/yellowstone-faithful/carreader"
+	"github.com/rpcpool/yellowstone-faithful/compactindexsized"
 	deprecatedbucketter "github.com/rpcpool/yellowstone-faithful/deprecated/bucketteer"
 	"github.com/rpcpool/yellowstone-faithful/gsfa"
 	hugecache "github.com/rpcpool/yellowstone-faithful/huge-cache"
@@ -888,6 +889,11 @@ func (ser *Epoch) GetBlock(ctx context.Context, slot uint64) (*ipldbindcode.Bloc
 	if err != nil {
 		return nil, cid.Cid{}, fmt.Errorf("failed to decode block with CID %s: %w", wantedCid, err)
 	}
+	// The slot-to-cid index stores no keys: a slot that is not in the index can be answered with
+	// the entry of another slot whose truncated hash is equal. Such a slot is not in the archive.
+	if uint64(decoded.Slot) != slot {
+		return nil, cid.Cid{}, fmt.Errorf("slot %d: index entry belongs to slot %d: %w", slot, decoded.Slot, compactindexsized.ErrNotFound)
+	}
 	return decoded, wantedCid, nil
 }
 
@@ -965,6 +971,15 @@ func (ser *Epoch) GetTransaction(ctx context.Context, sig solana.Signature) (*ip
 	decoded, err := iplddecoders.DecodeTransaction(data)
 	if err != nil {
 		return nil, cid.Cid{}, fmt.Errorf("failed to decode transaction with CID %s: %w", wantedCid, err)
+	}
+	// The sig-to-cid index stores no keys: a signature that is not in the index can be answered
+	// with the entry of another signature whose truncated hash is equal.
+	gotSig, err := decoded.Signature()
+	if err != nil {
+		return nil, cid.Cid{}, fmt.Errorf("failed to read the signature of transaction with CID %s: %w", wantedCid, err)
+	}
+	if gotSig != sig {
+		return nil, cid.Cid{}, fmt.Errorf("signature %s: index entry belongs to signature %s: %w", sig, gotSig, compactindexsized.ErrNotFound)
 	}
 	return decoded, wantedCid, nil
 }
